@@ -13,7 +13,7 @@ from . import astutil as A
 _UNKNOWN = object()
 
 
-def explore(cfg, env0, funcs=None, on_node=None, max_states=20000, start=None, unknown='both', on_unknown=None):
+def explore(cfg, env0, funcs=None, on_node=None, max_states=20000, start=None, unknown='both', on_unknown=None, pinned=()):
     """Explore all abstract states reachable from entry with environment `env0` (dict path -> constant).
     `on_node(node, env)` is called for every (node, env) visited; returns the set of visited node ids.
     `start`: node to start from (default entry).  `unknown`: 'both' follows both edges of a test that is not closed,
@@ -46,14 +46,23 @@ def explore(cfg, env0, funcs=None, on_node=None, max_states=20000, start=None, u
             ks = kills(nd)
             for k in ks:
                 for p in list(env2):
-                    if p == k or p.startswith(k + '.') or p.startswith(k + '['):
+                    if (p == k or p.startswith(k + '.') or p.startswith(k + '[')) and p not in pinned:
                         del env2[p]
             a = nd.ast
             if nd.kind == 'stmt' and isinstance(a, ast.Assign) and len(a.targets) == 1:
                 p = path_of(a.targets[0])
-                if p:
+                if p and p not in pinned:
                     try:
                         env2[p] = A.ev(a.value, env, funcs)
+                        hash(env2[p])
+                    except (A.NotClosed, TypeError, AttributeError, IndexError, KeyError, ValueError):
+                        env2.pop(p, None)
+            if nd.kind == 'stmt' and isinstance(a, ast.AugAssign):
+                p = path_of(a.target)
+                if p and p not in pinned and p in env:
+                    try:
+                        env2[p] = A.ev(ast.BinOp(left=a.target.__class__(**{f: getattr(a.target, f) for f in a.target._fields if f != 'ctx'}, ctx=ast.Load()),
+                                                 op=a.op, right=a.value), env, funcs)
                         hash(env2[p])
                     except (A.NotClosed, TypeError, AttributeError, IndexError, KeyError, ValueError):
                         env2.pop(p, None)
